@@ -47,7 +47,10 @@ ColOK(d, mods) == \A i \in FileOf(mods, d.file) :
 Intersects(d, lo, hi) == (d.start < hi /\ lo < d.end) \/ (d.start = d.end /\ lo <= d.start /\ d.start <= hi)
 Covers(ds, fault) == \E x \in 1..Len(ds) : ds[x].code = fault.code /\ Intersects(ds[x], fault.start, fault.end)
 
-Renders(d) == "render" \in DOMAIN d => \A x \in 1..Len(d.render) : d.render[x].status = "ok" /\ d.render[x].has_code
+\* the harness logs r4 = TRUE when all four renderings succeeded, showed the code and were clean,
+\* and the four detailed results otherwise
+Renders(d) == /\ "render" \in DOMAIN d => \A x \in 1..Len(d.render) : d.render[x].status = "ok" /\ d.render[x].has_code
+              /\ "r4" \in DOMAIN d => d.r4
 RenderClean(d) == "render" \in DOMAIN d =>
                      \A x \in 1..Len(d.render) : /\ (~d.render[x].color => ~d.render[x].esc)
                                                  /\ (d.render[x].ascii => d.render[x].foreign = "")
